@@ -10,8 +10,8 @@ def prebuild(repo):
 def spec(tier, seed, repo):
     quick = tier == "quick"
     return dict(
-        stages=[stage("w_c18", repo, nshards=16, case_timeout=300 if quick else 1800,
-                      total_timeout=1800 if quick else 7200)],
+        stages=[stage("w_c18", repo, nshards=16, case_timeout=600 if quick else 2400,
+                      total_timeout=3600 if quick else 14400)],
         level="exploration",
         rule="one case = one (part, protocol, N, repetition): part lib-vs-lib runs the library chooser against "
              "the library sender over line channels for every index (N<=16; sampled for 32, 64 in the quick "
